@@ -197,6 +197,7 @@ def run(ck):
     g = gen_sample.generate()
     ck.note("translator", {"SampleConsts_changed": g["changed"], "stage_order": g["stage_order"]})
     ck.proofs(["XmpProps.C20"], required=REQUIRED, drivers=["drv_c20"])
+    proofs_ok = bool(getattr(ck, "lean_ok", False)) and not ck.unproved_items
     exe = vlib.build_harness("c20_sample", ["c20_sample.c"])
     quick = ck.tier == "quick"
     have_driver = os.path.exists(vlib.lean_driver("drv_c20")) and getattr(ck, "lean_ok", False)
@@ -255,10 +256,19 @@ def run(ck):
                              % (fld, b["R"][:160], b["S"][:160], b["case"][:300]))
             elif not b["ok_m"]:
                 fld = which_field(rf, b["M"].split(" ")[2:])
-                ck.unproved("correspondence Sample.load vs libxmp_load_sample",
-                            "loop-style model differs from the real code in `%s` while the closed-form reference %s: real=%s model=%s ; case %s"
-                            % (fld, "agrees" if b["S"] and not b["S"].endswith("toolarge") else "was not evaluated (large case)",
-                               b["R"][:200], (b["M"] or "")[:200], shrink_note(b)))
+                large = bool(b["S"]) and b["S"].endswith("toolarge")
+                if large and proofs_ok:
+                    # the closed form was not evaluated (quadratic); C20_main (kernel-checked in this run) proves the
+                    # loop-style model equal to it, so the model's output is the reference output
+                    ck.violation("sample:" + fld, {"case": b["case"], "real": b["R"][:4000], "model": (b["M"] or "")[:4000]},
+                                 "libxmp_load_sample differs from the reference decoder (loop-style model, proved equal to the closed "
+                                 "form by C20_main) in `%s` on a large case: real=%s model=%s ; case %s"
+                                 % (fld, b["R"][:160], (b["M"] or "")[:160], b["case"][:300]))
+                else:
+                    ck.unproved("correspondence Sample.load vs libxmp_load_sample",
+                                "loop-style model differs from the real code in `%s` while the closed-form reference %s: real=%s model=%s ; case %s"
+                                % (fld, "was not evaluated (large case)" if large else "agrees",
+                                   b["R"][:200], (b["M"] or "")[:200], shrink_note(b)))
     for k, v in sorted(stats.items()):
         ck.note(k, v)
     ck.note("cases_by_generator", modes)
